@@ -148,7 +148,11 @@ def check(ctx):
     ok = len(subs) == 1 and len(usercb) == 1 and strip_casts(dg.expr(subs[0][1]["args"][1])) == ("const", 1)
     if ok:
         edges = util.eq_const_edge(body, dg, lambda e: e[0] == "atomic" and e[1] == "fetch_sub" and e[3] == subs[0][0], 1)
-        ok = len(edges) == 1 and body.dominates(edges[0][1], usercb[0][0]) and edges[0][1] != edges[0][2] and util.on_every_return_path(body, subs[0][0])
+        ok = len(edges) == 1 and edges[0][1] != edges[0][2] and util.on_every_return_path(body, subs[0][0])
+        if ok:
+            # the callback lies on the `== 1` edge: dominated by it, or (flag-aware) unreachable from the `!= 1` edge without a new decrement
+            # (the decision may travel through an Option built on that edge and matched afterwards)
+            ok = body.dominates(edges[0][1], usercb[0][0]) or usercb[0][0] not in util.flag_paths(body, dg, edges[0][2], stop_blocks={subs[0][0]})
     ctx.ob("R12.3", f"{kl}|fires-on-last-count", ok, f"{body.f['file']}:{body.f['line']}", "the user callback runs only where the single fetch_sub(1) returned 1 (exactly one of the latch_count calls observes it)")
     kl0 = "uni::uni::latch_callback_1p"
     b0 = Body(fx.fn(kl0)); d0 = D.Dag(b0)
